@@ -51,6 +51,43 @@ func rawSharedInner(n int, first bool) it {
 	}))))
 }
 
+// rawRecvThenStretch: the first iteration yields through BindRecv (resumed by MoveNext with the zero value),
+// the long non-yielding stretch follows that resume.
+func rawRecvThenStretch(n int) it {
+	i := 0
+	return seq.Start(seq.For(func() bool { return i < n }, func() { i++ }, seq.Delay(func() seq.Seq[int] {
+		mon.At(i)
+		switch {
+		case i == 0:
+			return seq.BindRecv(0, func(int) seq.Seq[int] { return seq.Normal[int]() })
+		case i == n-1:
+			return seq.Bind(i, seq.Normal[int])
+		}
+		return seq.Normal[int]()
+	})))
+}
+
+// rawRecvInWhileCombine: BindRecv as first half of a Combine inside a While loop, then the stretch
+func rawRecvInWhileCombine(n int) it {
+	i := 0
+	return seq.Start(seq.While(func() bool { return i < n }, seq.Combine(
+		seq.Delay(func() seq.Seq[int] {
+			mon.At(i)
+			i++
+			if i == 1 {
+				return seq.BindRecv(1, func(int) seq.Seq[int] { return seq.Normal[int]() })
+			}
+			return seq.Normal[int]()
+		}),
+		seq.Delay(func() seq.Seq[int] {
+			if i == n {
+				return seq.Bind(i, seq.Normal[int])
+			}
+			return seq.Normal[int]()
+		}),
+	)))
+}
+
 func rawWhileContinue(n int) it {
 	i := 0
 	return seq.Start(seq.While(func() bool { return i < n }, seq.Delay(func() seq.Seq[int] {
@@ -132,6 +169,10 @@ func main() {
 		g = loops.RangeOtherInBody(*n, *first)
 	case "rawSharedInner":
 		g = rawSharedInner(*n, *first)
+	case "rawRecvThenStretch":
+		g = rawRecvThenStretch(*n)
+	case "rawRecvInWhileCombine":
+		g = rawRecvInWhileCombine(*n)
 	case "rawFor":
 		g = rawFor(*n)
 	case "rawWhileContinue":
